@@ -140,7 +140,7 @@ func (s *massiveScenario) classes() []string {
 	if s.sp.LeadBlank > 0 {
 		cl = append(cl, "leading-blank")
 	}
-	if len(s.sp.UnitPerRoot) > 0 || differingFirstIndents(s.doc) {
+	if len(s.sp.UnitPerRoot) > 0 || differingFirstIndents(s.doc) || mixedSeparators(s.doc) {
 		// the first indented line is not indented alike under every root: the unit the
 		// (shared) parser learns depends on which block it sees first
 		cl = append(cl, "mixed-units")
@@ -1067,6 +1067,26 @@ func diskDetail(out *Outcome) string {
 // differingFirstIndents reports whether the first indented line is not indented alike in
 // every root block, blocks being cut the way the massive splitter cuts them (a new block at
 // every line whose first byte is one of "#-*+").
+// mixedSeparators reports whether the document indents some lines with blanks and others
+// with tabs. The shared parser keeps the kind of separator it met first and forgets it at
+// every root line - of any block, so in massive mode what it accepts depends on which
+// worker parses a root line in between (same known finding as for differing units).
+func mixedSeparators(doc []byte) bool {
+	blank, tab := false, false
+	for _, l := range strings.Split(string(doc), "\n") {
+		if strings.TrimSpace(l) == "" {
+			continue
+		}
+		switch l[0] {
+		case ' ':
+			blank = true
+		case '\t':
+			tab = true
+		}
+	}
+	return blank && tab
+}
+
 func differingFirstIndents(doc []byte) bool {
 	seen := ""
 	need := false
